@@ -5,6 +5,8 @@ import Blue.Proofs.KvsWake
 import Blue.Proofs.WaitListRing
 import Blue.Proofs.ConstsTieC06
 import Blue.Proofs.ConstsTieC20
+import Blue.Proofs.StallTree
+import Blue.Proofs.FlushReq
 /-! # Property C20 — writes keep completing: ingest and compaction never wait on each other forever
 
 Property theorems only.  **The claim is partial.**
@@ -43,11 +45,42 @@ offer: the known finding D-15, at selector-model level one closed example
 (`sel_sound_partial`'s second half).  A second configuration in which `Sel` cannot hold, not
 D-15: a stall threshold of 0 files (`zero_threshold_*`).
 
-The two models are composed by one small bridge only (`selOK_of_tree`, `selOK_within_limits`:
-on a protocol state that shows the tree's level 0 and thresholds — `Matches` — the selector
-model's answer obeys `Sel` for that one selection); there is no theorem about runs of the joined
-system (tree + protocol), and the hand-off of the flush request between a writer and the flush
-thread (`KeyValueStore::state` condvar) has no Lean model at all — it is replayed only.
+`Blue.Selector` and `Blue.Stall` are joined by one small bridge (`selOK_of_tree`,
+`selOK_within_limits`: on a protocol state that shows the tree's level 0 and thresholds —
+`Matches` — the selector model's answer obeys `Sel` for that one selection).
+
+Block `StallTree`: `Blue.StallTree` is ONE transition system whose state carries the real tree
+(`Blue.NextCompaction.Tree`), the compaction each compaction thread has in flight (so the `ongoing`
+list) and the control state of `Blue.Stall`; `select` is DEFINED by `nextCompaction` on the current
+tree and `ongoing` list, `finish` by `applyCompaction`, `ingest` by `Version::ingest` guarded by
+`should_stall_ingest` on level 0 of the tree (file count and the saturating `Level::size`).
+`stalltree_refines_stall`: every run projects event by event to a run of `Blue.Stall`, and `selOK`
+of every projected selection is `selT` of the tree state; the invariant, deadlock freedom
+(`stalltree_never_all_parked_partial`) and `stalltree_stalled_has_runner` (as enabledness of a
+compaction-thread step) transfer, with `Sel` a property of the tree states of the run — still a
+hypothesis: the selector violates it in the D-15 states.  Bounded progress:
+`stalled_ingest_released` — from a stalled state, a run with more than `measureG s + 2 · (failed
+compactions + spurious wake-ups of compaction threads)` effective compaction-thread steps passes
+through a state in which ingest is not stalled and no ingester is asleep; `measureG` is twice the
+potential of the WHOLE tree (`pot`: every version once per level it can still sink through) plus
+the compaction threads' weights, so nothing is asked of which compactions the selector prefers
+(`relieving_not_guaranteed`: it does hand out a move below level 0 while ingest is stalled); its two
+hypotheses are per-install facts evaluated on the run, not derived from the selector / the merge
+here: a compaction in flight has an input holding a version above its output level (`downSt`), and
+an install adds no version (`outsOK`); `install_lowers_potential` is the step lemma.
+`stalled_ingest_released_partial` is the same with level 0 alone as the measure, for runs in which
+every compaction in flight while stalled takes a file out of level 0.  Together with
+`stalltree_stalled_has_runner` (a step is enabled) this is "never waits forever" as bounded
+progress; fairness of the scheduler is what turns it into "eventually".
+
+The flush request (`Blue.FlushReq`, lsmtk/src/kvs/mod.rs): NO WRITER WAITS FOR A FLUSH.  A write
+that finds the memtable full raises `imm_trigger`, `notify_one`s `cnd_needs_memtable_flush` and
+goes on writing into the same memtable; nothing waits on `cnd_memtable_rolled_over`.  The only
+waiter is the flush thread.  `flush_sleeper_has_no_request` (invariant, all schedules),
+`request_served_in_one_step`; and `request_during_flush_is_forgotten`: the flush thread's last
+critical section ASSIGNS its local `imm_trigger`, overwriting a request made during the flush; the
+thread then sleeps on a full memtable until the next write asks again
+(`forgotten_request_is_reissued`).
 
 Before a write reaches the tree it goes through the wait list of `KeyValueStore::write` (the flush
 thread goes through the same list): `Blue.KvsWake` is who-wakes-whom there, one event per critical
@@ -69,10 +102,11 @@ the store mutex the one linked writer needs in order to leave), against
 window is as long as there are guards).  The recorded wait-list events of every kvs-mode run are
 replayed through `Blue.KvsWake.step`.
 
-What is not: wall-clock "eventually" and scheduler fairness are not expressible; the temporal
-statement "every stalled ingest is released" is not formalised (only its enabledness and measure
-halves; compactions below level 0 between two relieving ones are not bounded by the model); `Sel`
-is a hypothesis on runs, discharged for the real selector only where `sel` holds. -/
+What is not: wall-clock "eventually" and scheduler fairness are not expressible; "every stalled
+ingest is released" is a bounded-progress theorem (enabledness + a bound on the compaction-thread
+steps a stall can outlast), under `downSt` / `outsOK` as hypotheses on the run; `Sel` is a
+hypothesis on the tree states of the run, discharged for the real selector only where `sel`
+holds; `Blue.StallTree` is not replayed by the driver (its projection `Blue.Stall` is). -/
 namespace Blue.Props.C20
 open Blue.Stall
 
@@ -459,6 +493,180 @@ example : Blue.WaitList.inOrder (Blue.WaitList.init 4) [.link, .link, .unlink 0,
 
 end waitlist
 
+-- BEGIN StallTree
+section stalltree
+open Blue.NextCompaction Blue.StallTree
+
+/-- **protocol and selector composed over runs.**  Every run of `Blue.StallTree` (real tree,
+    `select` = `nextCompaction` on the state, `finish` = `applyCompaction`, `ingest` guarded by the
+    stall test on level 0 of the tree) projects event by event to a run of `Blue.Stall`, and `Sel`
+    at every projected selection is `selT` of the tree and the compactions in flight there -/
+theorem stalltree_refines_stall (cfg : Cfg) (s : Blue.StallTree.St) (evs : List Blue.StallTree.Ev) (hwf : WF s)
+    (hsel : along cfg (selSt cfg) s evs = true) :
+    proj cfg (Blue.StallTree.run cfg s evs) = (projRun cfg s evs).foldl Blue.Stall.step (proj cfg s)
+      ∧ Blue.Stall.runSel (proj cfg s) (projRun cfg s evs) = true :=
+  Blue.StallTree.stalltree_refines_stall cfg s evs hwf hsel
+
+example : WF Ex.s0 ∧ along Ex.cfg (selSt Ex.cfg) Ex.s0 Ex.evs0 = true := ⟨Ex.wf0, by decide⟩
+
+/-- `writes_never_all_parked_partial` transferred: `Sel` is a property of the tree states of the
+    run (`selT`, computed by `nextCompaction`), still a hypothesis — the selector violates it in the
+    D-15 states -/
+theorem stalltree_never_all_parked_partial (cfg : Cfg) (s : Blue.StallTree.St) (evs : List Blue.StallTree.Ev)
+    (hwf : WF s) (hinv : Blue.Stall.Inv (proj cfg s)) (hsel : along cfg (selSt cfg) s evs = true) :
+    Blue.Stall.deadlocked (proj cfg (Blue.StallTree.run cfg s evs)) = false :=
+  Blue.StallTree.stalltree_never_all_parked cfg s evs hwf hinv hsel
+
+example : Blue.Stall.Inv (proj Ex.cfg Ex.s0) := Ex.inv0
+
+/-- `stalled_has_runner` transferred, as enabledness: while an ingester is parked some compaction
+    thread can select or has a compaction to install -/
+theorem stalltree_stalled_has_runner (cfg : Cfg) (s : Blue.StallTree.St) (evs : List Blue.StallTree.Ev) (hwf : WF s)
+    (hinv : Blue.Stall.Inv (proj cfg s)) (hsel : along cfg (selSt cfg) s evs = true)
+    (hst : Blue.Stall.TState.waiting ∈ (Blue.StallTree.run cfg s evs).ingesters) :
+    ∃ i, compStep (Blue.StallTree.run cfg s evs) (.select i) = true
+      ∨ ∀ outs, compStep (Blue.StallTree.run cfg s evs) (.finish i outs) = true :=
+  Blue.StallTree.stalltree_stalled_has_runner cfg s evs hwf hinv hsel hst
+
+example : Blue.Stall.TState.waiting ∈ (Blue.StallTree.run Ex.cfg Ex.s0 [.ingest 0 Ex.D]).ingesters
+    ∧ along Ex.cfg (selSt Ex.cfg) Ex.s0 [.ingest 0 Ex.D] = true := by decide
+
+/-- the task's run: level 0 over the threshold, the ingester parks, the one compaction thread
+    selects (the selector's answer — levels 0 → 1, inputs 1, 2, 3 — is computed from the tree),
+    installs, and the ingester is released -/
+example :
+    stalledT Ex.cfg Ex.s0.tree = true
+      ∧ (Blue.StallTree.run Ex.cfg Ex.s0 [.ingest 0 Ex.D]).ingesters = [.waiting]
+      ∧ (nextCompaction Ex.cfg.num Ex.cfg.opts Ex.s0.tree []).map (fun c => (c.lower, c.upper, c.inputs))
+          = some (0, 1, [1, 2, 3])
+      ∧ released Ex.cfg (Blue.StallTree.run Ex.cfg Ex.s0 [.ingest 0 Ex.D, .select 0]) = false
+      ∧ released Ex.cfg (Blue.StallTree.run Ex.cfg Ex.s0 Ex.evs0) = true
+      ∧ (Blue.StallTree.run Ex.cfg Ex.s0 Ex.evs0).ingesters = [.running]
+      ∧ everReleased Ex.cfg Ex.s0 Ex.evs0 = true := by decide
+
+/-- `release_measure`, level 0 as the rank: while ingest is stalled and every compaction in flight
+    takes a file out of level 0, an effective compaction-thread step lowers the measure, nothing an
+    ingester does changes it, a failed compaction / spurious wake-up adds at most two; the step
+    that ends the stall leaves no ingester asleep -/
+theorem release_measure_step (cfg : Cfg) {s : Blue.StallTree.St} (hwf : WF s) (hst : stalledT cfg s.tree = true)
+    (hrel : relSt cfg s = true) (ev : Blue.StallTree.Ev) :
+    Blue.StallTree.measure (Blue.StallTree.step cfg s ev) + (if compStep s ev then 1 else 0)
+        ≤ Blue.StallTree.measure s + 2 * disturbance ev
+      ∧ (stalledT cfg (Blue.StallTree.step cfg s ev).tree = false
+          → released cfg (Blue.StallTree.step cfg s ev) = true) :=
+  Blue.StallTree.release_measure_step cfg hwf hst hrel ev
+
+example : WF Ex.s1 ∧ stalledT Ex.cfg1 Ex.s1.tree = true ∧ relSt Ex.cfg1 Ex.s1 = true :=
+  ⟨wfB_sound (by decide), by decide, by decide⟩
+
+/-- an install that takes a version out of a level above its output level and adds no version to
+    the tree lowers the potential of the tree -/
+theorem install_lowers_potential (t : Blue.NextCompaction.Tree) (c : Blue.NextCompaction.Core)
+    (outs : List Blue.NextCompaction.File) (hm : movesDown t c = true)
+    (hv : noNewVers t c outs = true) : pot (applyCompaction t c outs) < pot t :=
+  Blue.StallTree.pot_apply_lt t c outs hm hv
+
+example : movesDown Ex.s0.tree ⟨0, 1, 0, 20, [1, 2, 3], 300⟩ = true
+    ∧ noNewVers Ex.s0.tree ⟨0, 1, 0, 20, [1, 2, 3], 300⟩ [Ex.O] = true := by decide
+
+/-- **bounded progress, any compaction.**  From a state in which ingest is stalled, a run with more
+    than `measureG s + 2 * disturbances evs` effective compaction-thread steps passes through a state
+    in which ingest is not stalled and no ingester is asleep on `stall`.  Hypotheses on the run, not
+    derived here: `downSt` (a compaction in flight while ingest is stalled has an input holding a
+    version above its output level, in the tree it is installed on) and `outsOK` (an install adds no
+    version).  `Sel` is not needed for the bound: it keeps a step enabled
+    (`stalltree_stalled_has_runner`) -/
+theorem stalled_ingest_released (cfg : Cfg) (s : Blue.StallTree.St) (evs : List Blue.StallTree.Ev)
+    (hst : stalledT cfg s.tree = true) (hdown : along cfg (downSt cfg) s evs = true)
+    (houts : alongEv cfg outsOK s evs = true)
+    (hN : measureG s + 2 * disturbances evs < compSteps cfg s evs) :
+    everReleased cfg s evs = true :=
+  Blue.StallTree.stalled_ingest_released cfg s evs hst hdown houts hN
+
+example : stalledT Ex.cfg1 Ex.s1.tree = true ∧ along Ex.cfg1 (downSt Ex.cfg1) Ex.s1 Ex.evs1 = true
+    ∧ alongEv Ex.cfg1 outsOK Ex.s1 Ex.evs1 = true
+    ∧ measureG Ex.s1 + 2 * disturbances Ex.evs1 < compSteps Ex.cfg1 Ex.s1 Ex.evs1 := by decide
+
+/-- the same with level 0 alone as the measure.  PARTIAL: for runs in which every compaction in
+    flight while ingest is stalled takes a file out of level 0 (`relSt`); the selector does not
+    guarantee that (`relieving_not_guaranteed`) -/
+theorem stalled_ingest_released_partial (cfg : Cfg) (s : Blue.StallTree.St) (evs : List Blue.StallTree.Ev)
+    (hwf : WF s) (hst : stalledT cfg s.tree = true) (hrel : along cfg (relSt cfg) s evs = true)
+    (hN : Blue.StallTree.measure s + 2 * disturbances evs < compSteps cfg s evs) :
+    everReleased cfg s evs = true :=
+  Blue.StallTree.stalled_ingest_released_partial cfg s evs hwf hst hrel hN
+
+example : along Ex.cfg1 (relSt Ex.cfg1) Ex.s1 Ex.evs1 = true
+    ∧ Blue.StallTree.measure Ex.s1 + 2 * disturbances Ex.evs1 < compSteps Ex.cfg1 Ex.s1 Ex.evs1 := by decide
+
+/-- closed: on a stalled tree with nothing in flight the selector hands out the trivial move of a
+    level-1 file (nothing leaves level 0): `relSt` fails after the selection, `downSt` holds -/
+theorem relieving_not_guaranteed :
+    stalledT Ex.cfg Ex.s3.tree = true ∧ og Ex.s3 = []
+      ∧ (nextCompaction Ex.cfg.num Ex.cfg.opts Ex.s3.tree (og Ex.s3)).map (fun c => (c.lower, c.upper, c.inputs))
+          = some (1, 2, [3])
+      ∧ relSt Ex.cfg (Blue.StallTree.step Ex.cfg Ex.s3 (.select 0)) = false
+      ∧ downSt Ex.cfg (Blue.StallTree.step Ex.cfg Ex.s3 (.select 0)) = true :=
+  Blue.StallTree.relieving_not_guaranteed
+
+/-! ### the flush request: no writer waits; the flush thread is the only waiter -/
+
+/-- on every schedule from a fresh store: while a flush is requested (`mem_seq_no ≤ imm_trigger`)
+    the flush thread is not asleep on `cnd_needs_memtable_flush` -/
+theorem flush_sleeper_has_no_request (n : Nat) (evs : List Blue.FlushReq.Ev)
+    (hreq : Blue.FlushReq.requested (Blue.FlushReq.run (Blue.FlushReq.init n) evs) = true) :
+    (Blue.FlushReq.run (Blue.FlushReq.init n) evs).flush ≠ .asleep :=
+  Blue.FlushReq.flush_sleeper_has_no_request n evs hreq
+
+example : Blue.FlushReq.requested (Blue.FlushReq.run (Blue.FlushReq.init 7) [.grow, .write]) = true := by decide
+
+/-- a write that finds the memtable full while the flush thread is not flushing is served by the
+    flush thread's next step (bounded progress, bound 1); the writer waits for nothing -/
+theorem request_served_in_one_step {s : Blue.FlushReq.St} (h : Blue.FlushReq.Inv s) (hfull : s.memFull = true)
+    (hnf : ∀ t, s.flush ≠ .flushing t) :
+    let s' := Blue.FlushReq.step (Blue.FlushReq.step s .write) .flushCheck
+    s'.rotations = s.rotations + 1 ∧ s'.imm = true ∧ s'.memFull = false ∧ s'.flush = .flushing s.memSeqNo :=
+  Blue.FlushReq.request_served_in_one_step h hfull hnf
+
+example : Blue.FlushReq.Inv (Blue.FlushReq.run (Blue.FlushReq.init 7) [.grow])
+    ∧ (Blue.FlushReq.run (Blue.FlushReq.init 7) [.grow]).memFull = true
+    ∧ ∀ t, (Blue.FlushReq.run (Blue.FlushReq.init 7) [.grow]).flush ≠ .flushing t :=
+  by
+  refine ⟨Blue.FlushReq.inv_run (Blue.FlushReq.inv_init 7) _, by decide, ?_⟩
+  intro t h
+  have hc : (Blue.FlushReq.run (Blue.FlushReq.init 7) [.grow]).flush = .check := by decide
+  rw [hc] at h; cases h
+
+/-- a request made while the flush thread is flushing is forgotten: the thread's last critical
+    section assigns its local `imm_trigger` (lsmtk/src/kvs/mod.rs, `state.imm_trigger = imm_trigger`),
+    and its next test sends it to sleep on a full memtable -/
+theorem request_during_flush_is_forgotten {s : Blue.FlushReq.St} (h : Blue.FlushReq.Inv s) (hfull : s.memFull = true)
+    (t : Nat) (hf : s.flush = .flushing t) :
+    let s1 := Blue.FlushReq.step s .write
+    let s3 := Blue.FlushReq.step (Blue.FlushReq.step s1 .flushDone) .flushCheck
+    Blue.FlushReq.requested s1 = true ∧ s3.flush = .asleep ∧ s3.memFull = true
+      ∧ Blue.FlushReq.requested s3 = false ∧ s3.rotations = s.rotations :=
+  Blue.FlushReq.request_during_flush_is_forgotten h hfull t hf
+
+example : (Blue.FlushReq.run (Blue.FlushReq.init 7) [.grow, .write, .flushCheck, .grow]).memFull = true
+    ∧ (Blue.FlushReq.run (Blue.FlushReq.init 7) [.grow, .write, .flushCheck, .grow]).flush = .flushing 7 := by decide
+
+/-- … until the next write, which asks again and wakes the thread; its next step rotates -/
+theorem forgotten_request_is_reissued {s : Blue.FlushReq.St} (h : Blue.FlushReq.Inv s) (hfull : s.memFull = true)
+    (hf : s.flush = .asleep) :
+    let s' := Blue.FlushReq.step (Blue.FlushReq.step s .write) .flushCheck
+    s'.rotations = s.rotations + 1 ∧ s'.memFull = false :=
+  Blue.FlushReq.forgotten_request_is_reissued h hfull hf
+
+example :
+    let s := Blue.FlushReq.run (Blue.FlushReq.init 7) [.grow, .write, .flushCheck, .grow, .write, .flushDone, .flushCheck]
+    s.flush = .asleep ∧ s.memFull = true ∧ s.rotations = 1
+      ∧ (Blue.FlushReq.run s [.write, .flushCheck]).rotations = 2 :=
+  Blue.FlushReq.forgotten_request_example
+
+end stalltree
+-- END StallTree
+
 end Blue.Props.C20
 
 #print axioms Blue.Props.C20.writes_never_all_parked_partial
@@ -508,3 +716,15 @@ end Blue.Props.C20
 #print axioms Blue.ConstsTie.kvs_failed_write_exit
 #print axioms Blue.ConstsTie.lsmtk_defaults
 #print axioms Blue.ConstsTie.lsmtk_num_levels
+#print axioms Blue.Props.C20.stalltree_refines_stall
+#print axioms Blue.Props.C20.stalltree_never_all_parked_partial
+#print axioms Blue.Props.C20.stalltree_stalled_has_runner
+#print axioms Blue.Props.C20.release_measure_step
+#print axioms Blue.Props.C20.install_lowers_potential
+#print axioms Blue.Props.C20.stalled_ingest_released
+#print axioms Blue.Props.C20.stalled_ingest_released_partial
+#print axioms Blue.Props.C20.relieving_not_guaranteed
+#print axioms Blue.Props.C20.flush_sleeper_has_no_request
+#print axioms Blue.Props.C20.request_served_in_one_step
+#print axioms Blue.Props.C20.request_during_flush_is_forgotten
+#print axioms Blue.Props.C20.forgotten_request_is_reissued
